@@ -52,6 +52,9 @@ func Unquote(types ...string) Option {
 func unquote(s string) (string, error) {
 	quote := s[0]
 	s = s[1 : len(s)-1]
+	if quote == '`' { // Raw strings have no escape sequences; as in Go, carriage returns are dropped.
+		return strings.ReplaceAll(s, "\r", ""), nil
+	}
 	out := make([]byte, 0, len(s))
 	for s != "" {
 		value, multibyte, tail, err := strconv.UnquoteChar(s, quote)
